@@ -125,6 +125,12 @@ pub fn gen(tier: &str, r: &mut Rng) -> Vec<String> {
             out.push(format!("c16 threads {} {}", t, budget(tier, 500, 70_000)));
         }
     }
+    // many short rounds of threads released together by a barrier: whatever a thread does when it creates its first
+    // atom (or its 64th, 128th ...) happens at the same moment in all of them
+    let heavy = std::env::var("VERIF_C16_ROUNDS").ok().and_then(|v| v.parse::<usize>().ok());
+    for t in [2usize, 4, 8, 16] {
+        out.push(format!("c16 rounds {} {} {}", t, heavy.unwrap_or(budget(tier, 150, 3000)), *r.pick(&[3usize, 70, 130])));
+    }
     out
 }
 
@@ -187,6 +193,39 @@ pub fn exec(case: &str) -> Exec {
             if total < 12 { ex.req = "-".into(); }
             if all.len() != total {
                 ex.failures.push(Failure::new("duplicate-atom-identity", format!("{} identities for {} atoms", all.len(), total)).feat("threads", n));
+            }
+        }
+        "rounds" => {
+            let n = t.usize().unwrap();
+            let rounds = t.usize().unwrap();
+            let per = t.usize().unwrap();
+            ex.tags.push(format!("rounds:{n}"));
+            ex.req = "-".into();
+            ex.resp = "-".into();
+            let live: Vec<Atom> = (0..10).map(|i| Atom::new(false, i, "l", "CA", 0.0, 0.0, 0.0, 1.0, 0.0, "C", 0).unwrap()).collect();
+            for round in 0..rounds {
+                let barrier = std::sync::Arc::new(std::sync::Barrier::new(n));
+                let handles: Vec<std::thread::JoinHandle<Vec<Atom>>> = (0..n).map(|ti| { let bar = barrier.clone(); std::thread::spawn(move || {
+                    bar.wait();
+                    let mut atoms = Vec::with_capacity(per);
+                    for i in 0..per {
+                        let a = Atom::new(false, i, "x", "O", 0.0, 0.0, 0.0, 1.0, 0.0, "O", 0).unwrap();
+                        atoms.push(if i % 3 == 2 { a.clone() } else { a });
+                    }
+                    let _ = ti;
+                    atoms
+                }) }).collect();
+                // all atoms of the round stay alive until their identities are compared
+                let made: Vec<Vec<Atom>> = handles.into_iter().map(|h| h.join().unwrap()).collect();
+                let mut all: Vec<usize> = live.iter().map(counter_raw).collect();
+                for v in &made { all.extend(v.iter().map(counter_raw)); }
+                let total = all.len();
+                all.sort();
+                all.dedup();
+                if all.len() != total {
+                    ex.failures.push(Failure::new("duplicate-atom-identity", format!("{} identities for {} live atoms in round {}", all.len(), total, round)).feat("threads", n).feat("released_together", true));
+                    break;
+                }
             }
         }
         "copies" => {
